@@ -17,6 +17,11 @@ CHECKS = {
    "Seeded histories (writes of all five types incl. duplicates/extremes/type conflicts, snapshots, 8 compaction kinds with 1..1000 points per block, deletes, drops, reopen) against a real tsdb.Store; after every op all model keys are read through Shard.CreateIterator and CreateCursorIterator, ascending and descending, full range and boundary-aligned sub-ranges, and compared with a last-write-wins model; partial-write reporting and field-type uniqueness are judged too. Reads also run while a cache snapshot is parked between file write and install.",
    "Sampled histories; in-batch duplicate timestamps accept either value; type conflicts only against fields holding data; background compaction off (explicit planner/compactor calls instead).",
    "DESIGN.md section 3 C02"),
+ "C03": ("fault_enumeration",
+   "complete enumeration of (replication, coordinator position, level, per-owner outcome vector, arrival order) on the real PointsWriter with gated recording doubles; pure oracle from the property text; race detector on",
+   "The real coordinator.PointsWriter.WritePointsPrivileged is driven through every combination of replication 1..4, coordinator position (each owner or a non-owner), consistency level and per-owner outcome (stored / retryable failure with handoff accepted or refused / permanent rejection / queue non-empty with enqueue accepted or refused / no answer), with answer arrival orders enforced by gates inside the doubles (n<=3 complete, n=4 one seeded order per tuple in quick and complete in thorough). The returned error class and, after all owner goroutines drained, the exact number and payload of hinted-handoff offers per owner are judged by a pure function of the case.",
+   "ShardWriter/HintedHandoff/TSDBStore/MetaClient are doubles (durability of an accepted enqueue is C04's concern); the integrated multi-node variant is not part of this check; arrival order of non-final successes is near-exact (scheduler yields), verdicts do not depend on it.",
+   "DESIGN.md section 3 C03"),
  "C06": ("exploration",
    "replicated execution of generated command logs on 3+1 FSM instances (one snapshot/restored), canonical-form equality and invariant assertions after every entry",
    "Generated metadata command logs (every FSM command type except those needing a live raft; small argument pools so repeats/conflicts/invalid references are common) are applied entry by entry to three independent FSM replicas plus one that is snapshotted and restored at seeded points; after every entry canonical forms must agree and the invariants of the property (disjoint live ranges, id uniqueness/no reuse, owner placement of new groups, no removed-node owners, rejected command changes nothing) are asserted. Go's randomised map iteration makes order leaks visible as divergence.",
@@ -37,6 +42,11 @@ CHECKS = {
    "Delete-heavy seeded histories on inmem and tsi1 stores: after every step (snapshots, every compaction kind, restarts) all series fields are read through both APIs and MeasurementNames/TagKeys/TagValues/SeriesCardinality are compared with the model's live-series set; deletes are also issued from inside the snap.written hook (snapshot in flight) and while an injected-failure snapshot is held for retry; crash images at del.*/tomb.committed hooks are reopened with the in-flight delete allowed either way.",
    "Sampled histories, one sequential client; listings judged at quiescent points; delete overlapping a background level compaction is not scheduled deterministically (only through C19 stress).",
    "DESIGN.md section 3 C10"),
+ "C11": ("exploration",
+   "layout-invariance comparison of HTTP query results across physical layouts of in-process clusters + independent reference evaluator over the raw points",
+   "The same logical data set is loaded into 7 databases on two real in-process clusters (1 node: one shard cache-only / files-only / cache+compacted files / 1h shard groups; 3 nodes: RF1, RF2, RF3) and, after restarts, generated SELECT statements of the covered grammar are run over HTTP on every node of every layout: all 13 layout x node answers must be identical, and for the covered subset equal to an independent evaluation over the raw points (windowing, nine functions, fill, ordering, limits). A divergence is re-asked three times to tell persistent from transient ones.",
+   "Sampled data sets/statements; unique timestamps across series (tie order undefined by the language); reference subset excludes fill previous/linear with DESC or count; other grammar (subqueries, regex sources, math, other functions) not generated.",
+   "DESIGN.md section 3 C11"),
  "C12": ("exploration",
    "constructive generator with independent line-protocol writer + mutational hostile inputs, round-trip and request-isolation oracles, under checkptr in a supervised child",
    "Abstract points rendered by an independent writer (all escapes, numeric forms, precisions, unsorted tags) must parse to exactly that point; mutated/hostile text and binary inputs must not crash (checkptr build, supervised child) and accepted points must round-trip through String() and MarshalBinary bit-exactly; multi-line requests with a bad line must yield exactly the points of their good lines; Key/HashID independent of tag order; duplicate tags rejected.",
@@ -47,6 +57,11 @@ CHECKS = {
    "Runs the real block encoders/decoders (iterator and batch families, cross-wise) on generated sequences aimed at scheme boundaries and compares bit for bit; writes real WAL segments and reads every byte-offset truncation through WALSegmentReader and CacheLoader against the 'complete frames before the cut' oracle. Held on the sampled inputs only; the input space is unbounded.",
    "Trusts snappy/simple8b dependencies; timestamps within a block sorted (unsorted only via the raw scheme); sampled, not exhaustive.",
    "DESIGN.md section 3 C13"),
+ "C17": ("exploration",
+   "exact-boundary predicate oracle + real retention.Service against a real meta service with gated passes, injected metadata errors and a recording store; clock-bracketed judgement; K-pass bounded progress",
+   "ExpiredShardGroups/DeletedShardGroups are evaluated at End+D-1ns / End+D / End+D+1ns and decoy instants over generated policies and group sets; the real retention.Service runs against a real meta service + client and a recording TSDBStore (local shards of live, expired, deleted, pruned groups and ids unknown to the metadata), every DeleteShard/DeleteShardGroup call is judged with clock brackets, metadata errors are injected between passes counted at the service's own calls, and within K=3 passes after faults stop every expired group must be marked deleted and every local shard of a deleted group removed; write-time cut-off cross-checked through MapShards.",
+   "Unbounded 'eventually' restated as a 3-pass bound; the exact End+D==t instant is judged at predicate level only; cluster-level removal from every holder is not built.",
+   "DESIGN.md section 3 C17"),
 }
 
 NOT_APPLICABLE = {
